@@ -223,6 +223,155 @@ func ruleC01Accum(r *Run) {
 		}
 		r.Check(rule, construct, w.InstrPos(tu.mu), ok, detail)
 	}
+	ruleC01Order(r, m)
+}
+
+// C01-ORDER: "the earliest registered route wins" is carried by the order of the bucket slices in the two dynamic
+// tables and by nothing else. Registration appends (C01-ACCUM); no other code may reorder or overwrite the elements
+// of a bucket it got from a table — an in-place sort for a stable listing in String()/Routes() changes which of two
+// overlapping patterns answers from then on.
+func ruleC01Order(r *Run, m *tierModel) {
+	w := r.W
+	rule := "C01-ORDER"
+	var tierTypes []types.Type
+	for _, fv := range []*types.Var{m.regular, m.irreg} {
+		if fv != nil {
+			tierTypes = append(tierTypes, fv.Type())
+		}
+	}
+	isTier := func(t types.Type) bool {
+		for _, tt := range tierTypes {
+			if types.Identical(t, tt) || types.Identical(t.Underlying(), tt.Underlying()) {
+				return true
+			}
+		}
+		return false
+	}
+	mutators := map[string]int{"sort.Slice": 0, "sort.SliceStable": 0, "sort.Sort": 0, "sort.Stable": 0, "slices.Sort": 0, "slices.SortFunc": 0, "slices.SortStableFunc": 0, "slices.Reverse": 0, "builtin copy": 0}
+	n := 0
+	for _, f := range w.Funcs {
+		if f.Pkg == nil || f.Pkg.Pkg.Path() != modPath {
+			continue
+		}
+		// bucket values: lookups in / ranges over a table-typed map, and what is derived from them
+		bucket := map[ssa.Value]bool{}
+		var mark func(v ssa.Value)
+		mark = func(v ssa.Value) {
+			if bucket[v] {
+				return
+			}
+			bucket[v] = true
+			if rs := v.Referrers(); rs != nil {
+				for _, ref := range *rs {
+					switch x := ref.(type) {
+					case *ssa.Extract:
+						if _, isLk := x.Tuple.(*ssa.Lookup); isLk && x.Index == 0 {
+							mark(x)
+						}
+					case *ssa.Phi:
+						mark(x)
+					case *ssa.Slice:
+						mark(x)
+					case *ssa.ChangeType:
+						mark(x)
+					case *ssa.MakeInterface:
+						mark(x)
+					case *ssa.Store:
+						// spilled into a local cell (captured by a closure): the loads of the cell
+						if al, isAl := x.Addr.(*ssa.Alloc); isAl && x.Val == v {
+							for _, r2 := range *al.Referrers() {
+								if ld, isLd := r2.(*ssa.UnOp); isLd && ld.Op == token.MUL {
+									mark(ld)
+								}
+							}
+							// and the loads inside closures that capture the cell
+							for _, r2 := range *al.Referrers() {
+								if mc, isMC := r2.(*ssa.MakeClosure); isMC {
+									g := mc.Fn.(*ssa.Function)
+									for bi, b := range mc.Bindings {
+										if b == ssa.Value(al) && bi < len(g.FreeVars) {
+											for _, r3 := range *g.FreeVars[bi].Referrers() {
+												if ld, isLd := r3.(*ssa.UnOp); isLd && ld.Op == token.MUL {
+													bucket[ld] = true
+												}
+											}
+										}
+									}
+								}
+							}
+						}
+					}
+				}
+			}
+		}
+		eachInstr(f, func(in ssa.Instruction) {
+			switch x := in.(type) {
+			case *ssa.Lookup:
+				if isTier(x.X.Type()) {
+					if x.CommaOk {
+						mark(x)
+					} else {
+						mark(x)
+					}
+				}
+			case *ssa.Next:
+				if rg, ok := x.Iter.(*ssa.Range); ok && isTier(rg.X.Type()) {
+					for _, ref := range *x.Referrers() {
+						if ex, isEx := ref.(*ssa.Extract); isEx && ex.Index == 2 {
+							mark(ex)
+						}
+					}
+				}
+			}
+		})
+		if len(bucket) == 0 {
+			continue
+		}
+		n++
+		bad := ""
+		var badPos token.Pos
+		eachInstr(f, func(in ssa.Instruction) {
+			if bad != "" {
+				return
+			}
+			switch x := in.(type) {
+			case *ssa.Store:
+				if ia, ok := x.Addr.(*ssa.IndexAddr); ok && bucket[ia.X] {
+					bad, badPos = "an element of a bucket taken from a dynamic table is overwritten", w.InstrPos(in)
+				}
+			case *ssa.Call:
+				name := calleeName(x)
+				if ai, ok := mutators[name]; ok && ai < len(x.Call.Args) && bucket[x.Call.Args[ai]] {
+					bad, badPos = "a bucket taken from a dynamic table is passed to "+name+", which reorders / overwrites it in place", w.InstrPos(in)
+				}
+				if name == "builtin append" && len(x.Call.Args) > 0 {
+					if sl, ok := x.Call.Args[0].(*ssa.Slice); ok && bucket[sl] && sl.High != nil {
+						bad, badPos = "append onto a shortened bucket (b[:i]) overwrites the elements behind it in place", w.InstrPos(in)
+					}
+				}
+			}
+		})
+		// closures declared here that capture a bucket cell are scanned with the marks made above
+		for _, g := range f.AnonFuncs {
+			eachInstr(g, func(in ssa.Instruction) {
+				if bad != "" {
+					return
+				}
+				if st, ok := in.(*ssa.Store); ok {
+					if ia, ok := st.Addr.(*ssa.IndexAddr); ok && bucket[ia.X] {
+						bad, badPos = "an element of a bucket taken from a dynamic table is overwritten (in a closure)", w.InstrPos(in)
+					}
+				}
+			})
+		}
+		r.Check(rule, FuncName(f)+":buckets read-only", func() token.Pos {
+			if bad != "" {
+				return badPos
+			}
+			return f.Pos()
+		}(), bad == "", map[bool]string{true: "the function reads buckets of the dynamic tables and neither reorders nor overwrites their elements", false: bad + ": the order of a bucket IS the registration order that decides between overlapping patterns; after this call the earliest registered route no longer wins"}[bad == ""])
+	}
+	r.Exists(rule, "functions reading dynamic-table buckets", token.NoPos, n >= 2, fmt.Sprintf("%d function(s) take buckets out of the dynamic tables", n))
 }
 
 func ruleC01Methods(r *Run) {
